@@ -8,6 +8,7 @@
 import LdkModel.Proofs.ChainView
 import LdkModel.Proofs.ClaimView
 import LdkModel.Proofs.Unconfirm
+import LdkModel.Proofs.FundConf
 namespace Ldk.C11
 open Ldk Ldk.ChainView Ldk.ClaimHeights
 
@@ -918,6 +919,185 @@ example :
     (crun exCat K (cinit 99) pre).claims = [⟨7, 103⟩] ∧ FscAw 1 (crun exCat K (cinit 99) pre).st 101 ∧
     (crun exCat K (cinit 99) (pre ++ [.chain (.bestBlock 102)])).claims = [] ∧
     FscAw 1 (crun exCat K (cinit 99) (pre ++ [.chain (.bestBlock 102)])).st 101 := by decide
+
+
+/-! ## Manager / channel side: the funding-scope confirmation state machine (Model/FundConf.lean)
+   FundedChannel::{transactions_confirmed, do_best_block_updated, transaction_unconfirmed, get_relevant_txids} and
+   PendingFunding::check_get_splice_locked for the channel funding and every pending splice candidate; the retraction
+   blocks, get_funding_tx_confirmations, check_funding_meets_minimum_depth and the transaction_unconfirmed rewind height
+   are TRANSLATED from channel.rs on every run (Generated/FundConf.lean, tools/gen_fundconf.py). -/
+section FundingScopes
+open Ldk.FundConf Ldk.FundConfGen
+
+/-- A reorganisation below the confirmation height FULLY retracts the confirmation of a funding scope: after
+    do_best_block_updated(h) — whatever the channel, its candidates and what was already sent — either the channel was
+    force-closed, or every pending splice candidate kept its txid and has its recorded confirmation CLEARED when it was
+    above `h` (and untouched otherwise), and the main funding's recorded height is not above `h` either. -/
+theorem funding_reorg_retracts_confirmation (c : Chan) (h : Nat) :
+    (chanBestBlockUpdated c h).1.closed = true ∨
+    ((∀ g' ∈ (chanBestBlockUpdated c h).1.cands, ∃ g ∈ c.cands, g'.txid = g.txid ∧
+        g'.confHeight = if h < g.confHeight then 0 else g.confHeight) ∧
+     (chanBestBlockUpdated c h).1.main.confHeight ≤ h) := by
+  rcases bbu_cands_retracted c h with h1 | h1
+  · exact Or.inl h1
+  · rcases bbu_main_le c h with h2 | h2
+    · exact Or.inl h2
+    · exact Or.inr ⟨h1, h2⟩
+
+/-- non-vacuity (the round-5 seeded shape): a splice candidate confirmed at 101, two blocks deep, no splice_locked sent,
+    reorganised out by do_best_block_updated(100): confirmation cleared, no longer relevant, nothing locked -/
+example :
+    let c : Chan := { minDepth := 6, best := 102, main := { txid := 0, confHeight := 90, confIn := true, scid := true },
+                      cands := [{ txid := 1, confHeight := 101, confIn := true, scid := true }] }
+    (chanBestBlockUpdated c 100).1.cands.map (·.confHeight) = [0] ∧
+    relevantTxids (chanBestBlockUpdated c 100).1 = [(0, 90)] ∧ (chanBestBlockUpdated c 100).2 = none := by decide
+
+/-- "Which transactions still need watching": after do_best_block_updated(h), get_relevant_txids lists no funding
+    scope (channel funding or splice candidate) with a confirmation height above `h`. -/
+theorem funding_reorg_not_relevant_above (c : Chan) (h : Nat) (p : Nat × Nat)
+    (hp : p ∈ relevantTxids (chanBestBlockUpdated c h).1) : p.2 ≤ h :=
+  bbu_relevant_le c h p hp
+
+example :
+    let c : Chan := { minDepth := 6, best := 102, main := { txid := 0, confHeight := 90, confIn := true, scid := true },
+                      cands := [{ txid := 1, confHeight := 101, confIn := true, scid := true }] }
+    relevantTxids c = [(0, 90), (1, 101)] ∧ relevantTxids (chanBestBlockUpdated c 101).1 = [(0, 90), (1, 101)] := by decide
+
+/-- splice_locked only for a buried candidate: a splice_locked produced by do_best_block_updated(h) names a candidate
+    that AFTER the retraction step still has a recorded confirmation, at least minimum_depth deep at `h` — unless the
+    channel is zero-conf (minimum_depth 0, trusted by configuration). In particular a candidate whose confirmation was
+    retracted by this very call is not locked. -/
+theorem splice_locked_only_when_buried (c : Chan) (h t : Nat) (hl : (chanBestBlockUpdated c h).2 = some t) :
+    c.minDepth = 0 ∨ ∃ g ∈ (chanBestBlockUpdated c h).1.cands, g.txid = t ∧ g.confHeight ≠ 0 ∧ g.confHeight + c.minDepth ≤ h + 1 :=
+  bbu_lock_sound c h t hl
+
+example :
+    let c : Chan := { minDepth := 6, best := 105, main := { txid := 0, confHeight := 90, confIn := true, scid := true },
+                      cands := [{ txid := 1, confHeight := 101, confIn := true, scid := true }] }
+    (chanBestBlockUpdated c 105).2 = none ∧ (chanBestBlockUpdated c 106).2 = some 1 := by decide
+
+/-- Delivery independence of the retraction: Confirm::transaction_unconfirmed(txid) of a scope confirmed at `k` IS
+    do_best_block_updated(k - 1) (translated rewind height), and Listen::blocks_disconnected(fork point h) IS
+    Confirm::best_block_updated(h) on the channel — so the three ways a client reports the reorg run the same
+    retraction, to which the three theorems above apply. -/
+theorem unconfirmed_is_reorg_below (c : Chan) (t : Nat) (f : Scope) (hc : c.closed = false)
+    (hf : (c.main :: c.cands).find? (fun f => f.txid == t) = some f) (hk : f.confHeight ≠ 0) :
+    chanTxUnconfirmed c t = chanBestBlockUpdated c (f.confHeight - 1) ∧
+    ∀ h, FundConf.step c (.disc h) = FundConf.step c (.best h) :=
+  ⟨unconf_eq_bbu c t f hc hf hk, fun _ => rfl⟩
+
+example :
+    let c : Chan := { minDepth := 6, best := 102, main := { txid := 0, confHeight := 90, confIn := true, scid := true },
+                      cands := [{ txid := 1, confHeight := 101, confIn := true, scid := true }] }
+    (chanTxUnconfirmed c 1).1.cands.map (·.confHeight) = [0] ∧ relevantTxids (chanTxUnconfirmed c 1).1 = [(0, 90)] := by decide
+
+/-- No splice_locked later without re-confirmation, over WHOLE histories: for every channel, every op list (any
+    mix of Confirm / Listen calls, any heights, any order) and every splice_locked `t` it produces: the channel is
+    zero-conf, or candidate `t` had a recorded confirmation at the start, or some call of the history handed
+    transaction `t` to transactions_confirmed. Together with `funding_reorg_retracts_confirmation` (the reorg clears the
+    record): once a candidate was reorganised out, growing the competing fork never locks it. -/
+theorem no_splice_locked_without_confirmation (c : Chan) (ops : List FundConf.Op) (t : Nat) (ht : t ∈ (FundConf.run c ops).2) :
+    c.minDepth = 0 ∨ Conf c.cands t ∨ ∃ o ∈ ops, confirms o t :=
+  (run_StepOK ops c).2.2 t ht
+
+/-- the same for the recorded confirmations (what get_relevant_txids reports for candidates): none appears without
+    a confirming call -/
+theorem no_confirmation_without_confirming_call (c : Chan) (ops : List FundConf.Op) (g : Scope)
+    (hg : g ∈ (FundConf.run c ops).1.cands) (h0 : g.confHeight ≠ 0) :
+    Conf c.cands g.txid ∨ ∃ o ∈ ops, confirms o g.txid :=
+  (run_StepOK ops c).2.1 g hg h0
+
+/-- non-vacuity: the demo history of the seeded change (2 confirmations, both blocks disconnected, competing fork
+    of ANTI_REORG_DELAY + 2 blocks without the splice transaction) locks nothing and ends with only the channel
+    funding relevant; with the transaction re-mined in the fork it locks exactly once, min_depth deep -/
+example :
+    let c : Chan := { minDepth := 6, best := 100, main := { txid := 0, confHeight := 90, confIn := true, scid := true }, cands := [{ txid := 1 }] }
+    let fork (ids : List Nat) : List FundConf.Op := [.block 101 ids, .block 102 [], .block 103 [], .block 104 [], .block 105 [], .block 106 [], .block 107 [], .block 108 []]
+    (FundConf.run c (([.block 101 [1], .block 102 [], .disc 100] : List FundConf.Op) ++ fork [])).2 = [] ∧
+    relevantTxids (FundConf.run c (([.block 101 [1], .block 102 [], .disc 100] : List FundConf.Op) ++ fork [])).1 = [(0, 90)] ∧
+    (FundConf.run c (([.block 101 [1], .block 102 [], .disc 100] : List FundConf.Op) ++ fork [1])).2 = [1] ∧
+    (FundConf.run c (([.conf 101 [1], .best 101, .best 102, .unconf 1, .best 100] : List FundConf.Op) ++ fork [])).2 = [] := by decide
+
+/-- Delivery-order independence of one connected block, for a channel with ONE pending splice candidate whose
+    channel funding stays confirmed and whose candidate is not recorded above the block: announcing the block
+    best-block-first (`best h; conf h ids`), transactions-first (`conf h ids; best h`) or through Listen
+    (`block h ids`) ends in the SAME channel (recorded heights, sent_funding_txid, closed) and produces the SAME
+    splice_locked messages — for every block content `ids` and every state of the candidate (unconfirmed, confirmed
+    shallow / deep, locked or not). `_partial`: missing are several negotiated candidates (RBF); there the real loop of
+    transactions_confirmed is order-sensitive when a block holds two conflicting candidates (cannot happen in a valid
+    chain), which is not excluded by a hypothesis here but by restricting to one candidate. -/
+theorem connect_order_independent_partial (c : Chan) (f : Scope) (h : Nat) (ids : List Nat)
+    (hcl : c.closed = false) (hc : c.cands = [f]) (hm0 : c.main.confHeight ≠ 0) (hmh : c.main.confHeight ≤ h)
+    (hfh : f.confHeight ≤ h) (hb : c.best < h) :
+    FundConf.run c [.best h, .conf h ids] = FundConf.run c [.conf h ids, .best h] ∧
+    FundConf.run c [.block h ids] = FundConf.run c [.conf h ids, .best h] :=
+  connect_order_single c f h ids hcl hc hm0 hmh hfh hb
+
+/-- non-vacuity: a 1-conf channel locks in the confirming block under both orders -/
+example :
+    let c : Chan := { minDepth := 1, best := 100, main := { txid := 0, confHeight := 90, confIn := true, scid := true }, cands := [{ txid := 1 }] }
+    FundConf.run c [.best 101, .conf 101 [7, 1]] = FundConf.run c [.conf 101 [7, 1], .best 101] ∧
+    (FundConf.run c [.best 101, .conf 101 [7, 1]]).2 = [1] := by decide
+
+/-- The channel funding BEFORE channel_ready (Model Pre: AwaitingChannelReady, the harness family PRE): a
+    reorganisation below the recorded confirmation height fully retracts it — height, block hash AND short channel id
+    are cleared (all three resets of the translated retraction block), nothing is reported by get_relevant_txids, and no
+    channel_ready is produced by that call unless the channel is zero-conf. For every such channel and every height. -/
+theorem prefunding_reorg_fully_retracted (p : Pre) (h : Nat) (hc : p.closed = false) (hlt : h < p.main.confHeight) :
+    (preBestBlockUpdated p h).1.main.confHeight = 0 ∧ (preBestBlockUpdated p h).1.main.confIn = false ∧
+    (preBestBlockUpdated p h).1.main.scid = false ∧ preRelevant (preBestBlockUpdated p h).1 = [] ∧
+    ((preBestBlockUpdated p h).2 = true → p.minDepth = 0) := by
+  have hm := preBBU_main p h hc
+  obtain ⟨h1, h2, h3⟩ := preRetracted_of_lt p h hlt
+  refine ⟨hm ▸ h1, hm ▸ h2, hm ▸ h3, ?_, fun hr => ?_⟩
+  · unfold preRelevant
+    split
+    · rfl
+    · simp [hm, scopeRelevant, relevantHeight, h1]
+  · rcases preBBU_ready_sound p h hr with h4 | ⟨h4, _⟩
+    · exact h4
+    · rw [hm, h1] at h4; exact absurd rfl h4
+
+example :
+    let p : Pre := { minDepth := 6, best := 13, main := { txid := 0, confHeight := 12, confIn := true, scid := true } }
+    preRelevant p = [(0, 12)] ∧ preRelevant (preBestBlockUpdated p 11).1 = [] ∧ (preBestBlockUpdated p 11).1.main.scid = false ∧
+    (preBestBlockUpdated p 17).2 = true ∧ (preBestBlockUpdated p 16).2 = false := by decide
+
+/-- channel_ready only for a buried funding, and nothing is reported above the best height: a channel_ready produced
+    by do_best_block_updated(h) comes with a recorded confirmation (after the retraction) at least minimum_depth
+    deep at `h`, or the channel is zero-conf; and get_relevant_txids lists no height above `h` afterwards. -/
+theorem channel_ready_only_when_buried (p : Pre) (h : Nat) :
+    ((preBestBlockUpdated p h).2 = true →
+      p.minDepth = 0 ∨ ((preBestBlockUpdated p h).1.main.confHeight ≠ 0 ∧
+        (preBestBlockUpdated p h).1.main.confHeight + p.minDepth ≤ h + 1)) ∧
+    (p.closed = false → ∀ q ∈ preRelevant (preBestBlockUpdated p h).1, q.2 ≤ h) :=
+  ⟨preBBU_ready_sound p h, fun hc q hq => preRelevant_le p h q hq hc⟩
+
+example :
+    let p : Pre := { minDepth := 6, best := 16, main := { txid := 0, confHeight := 12, confIn := true, scid := true } }
+    (preBestBlockUpdated p 17).2 = true ∧ (preBestBlockUpdated p 17).1.ourReady = true ∧
+    (preBestBlockUpdated (preBestBlockUpdated p 17).1 11).1.closed = true := by decide
+
+/-- A reorganisation that removes the confirmed splice candidate also UN-SENDS its splice_locked: for every open
+    channel (minimum_depth > 0, funding still confirmed at `h`, at most one confirmed candidate `f` — more is a
+    force-close) and every `h` below f's recorded height, after do_best_block_updated(h) sent_funding_txid no longer
+    names `f`, no splice_locked is produced and the channel stays open — so when the transaction re-confirms and gets
+    buried again a NEW splice_locked is sent (oracle F3 on real nodes). -/
+theorem reorg_unsends_splice_locked (c : Chan) (h : Nat) (f : Scope) (hc : c.closed = false)
+    (hmain : mainUnconfirmedCloses c h = false) (hcnt : ¬ confirmedCount c.cands ≥ 2)
+    (hfind : c.cands.find? (fun f => f.confHeight != 0) = some f) (hlt : h < f.confHeight) (hmd : c.minDepth ≠ 0) :
+    (chanBestBlockUpdated c h).1.sent ≠ some f.txid ∧ (chanBestBlockUpdated c h).2 = none ∧
+    (chanBestBlockUpdated c h).1.closed = false :=
+  bbu_unsends c h f hc hmain hcnt hfind hlt hmd
+
+/-- non-vacuity: locked at 106, reorganised out, re-mined at 101' and buried again: a second splice_locked -/
+example :
+    let c : Chan := { minDepth := 6, best := 100, main := { txid := 0, confHeight := 90, confIn := true, scid := true }, cands := [{ txid := 1 }] }
+    let up (ids : List Nat) : List FundConf.Op := [.block 101 ids, .block 102 [], .block 103 [], .block 104 [], .block 105 [], .block 106 []]
+    (FundConf.run c (up [1])).1.sent = some 1 ∧ (FundConf.run c (up [1] ++ [.disc 100])).1.sent = none ∧
+    (FundConf.run c (up [1] ++ [.disc 100] ++ up [1])).2 = [1, 1] := by decide
+
+end FundingScopes
 
 
 end Ldk.C11
